@@ -57,6 +57,7 @@ def strategy(tier):
         c03.strategy(tier).map(lambda c: {"src": "C03", "case": c}),
         c03.strategy(tier).map(lambda c: {"src": "C03", "case": c}),
         c15.strategy(tier).map(lambda c: {"src": "C15", "case": c}),
+        c15.strategy(tier).map(lambda c: {"src": "C15", "case": c}),
         c10.strategy("thorough").map(lambda c: {"src": "C10", "case": c}),
         # the library's own writer and the reader's fast paths for its own files (byte-array packing, UTF-8
         # encoding, level and dictionary-index encoders, time conversions) run natively too
